@@ -68,6 +68,8 @@ OWNED = {'Dddmp_cuddBddLoad'}
 # may create nodes, but the result is a projection function, which the manager references itself
 PERMANENT = {'Cudd_bddIthVar'}
 RECURSIVE_DEREFS = {'Cudd_RecursiveDeref', 'Cudd_RecursiveDerefZdd', 'Cudd_IterDerefBdd'}
+# calls whose result is a handle of a node that the manager references for ever (projection functions)
+PERMANENT_HANDLE_CALLS = {'self.var'}
 ALLOCS = {'PyMem_Malloc'}
 FREES = {'PyMem_Free', 'FREE'}
 BORROWED = {
@@ -162,8 +164,10 @@ roles_of = cpyx.roles_of
 ARRAY_LEAK = 'a C array allocated on this path is not freed'
 
 
-def run_path(events, returns_node, local, float_check):
+def run_path(events, returns_node, local, float_check, final=None):
     """None when the path is fine, else (index of the offending event, reason).
+    `final`: a list that receives `(nodes, containers)` as they are when the path ends (nothing when
+    an event in the middle of the path is refused).
 
     Nodes: `held` = references this function owns, `in_cont` = references that containers followed
     on this path own.  Containers (C arrays, dicts, hash tables): `owned` / `borrowed` = what was
@@ -171,6 +175,7 @@ def run_path(events, returns_node, local, float_check):
     `released` = every element dereferenced and nothing stored since."""
     st = {}
     cs = {}
+    loops = []      # per enclosing loop iteration: {node: references held when the iteration began}
 
     def kind_of(fn):
         if fn in FRESH:
@@ -194,6 +199,8 @@ def run_path(events, returns_node, local, float_check):
                 or n['in_cont'] > 0)
 
     def end(k):
+        if final is not None:
+            final.append((st, cs))
         for x, n in sorted(st.items()):
             if n['held'] != 0:
                 return (k, f'path ends while holding (or having given away) a reference on node {x}')
@@ -273,7 +280,7 @@ def run_path(events, returns_node, local, float_check):
             if float_check and n['exposed']:
                 return (k, 'unprotected node used after a node-creating call or a recursive dereference')
             return end(k)
-        elif t in ('retHandle', 'retNull', 'raise'):
+        elif t in ('retHandle', 'retNull', 'raise', 'raiseIn'):
             return end(k)
         # -- containers ------------------------------------------------------------
         elif t in ('alloc', 'cnew', 'cparam'):
@@ -281,7 +288,8 @@ def run_path(events, returns_node, local, float_check):
                 return (k, f'not an allocation function: {ev[2]}')
             cs[ev[1]] = dict(kind={'alloc': 'array', 'cnew': 'pyobj', 'cparam': 'param'}[t],
                              size=ev[3] if t == 'alloc' else '', owned=[], borrowed=[],
-                             may_hold=False, released=False, ever_released=False, freed=False)
+                             may_hold=False, released=False, ever_released=False, freed=False,
+                             filling=False, filled=False)
         elif t == 'store':
             q, n = cs.get(ev[1]), st.get(ev[2])
             if q is None:
@@ -312,6 +320,9 @@ def run_path(events, returns_node, local, float_check):
                 return (k, 'an untracked container is handed to a call')
             if q['freed']:
                 return (k, 'container used after it was freed')
+            if q['kind'] == 'array' and (q['filling'] or not q['filled']):
+                return (k, f'an array is handed to {ev[2]}, but the loop that fills it was not completed '
+                           '(or there is none)')
             if float_check and q['released']:
                 return (k, f'container handed to {ev[2]} after its references were given back')
             if float_check and any(y in st and st[y]['exposed'] for y in q['borrowed']):
@@ -333,6 +344,9 @@ def run_path(events, returns_node, local, float_check):
                 return (k, 'the references of the container were already given back')
             if q['kind'] == 'array' and q['size'] != ev[3]:
                 return (k, 'the loop that gives the references back does not run over the allocated size')
+            if q['kind'] == 'array' and (q['filling'] or not q['filled']):
+                return (k, 'every slot of an array is dereferenced, but the loop that fills it was not '
+                           'completed (or there is none)')
             for y in q['owned']:
                 st[y]['in_cont'] -= 1
             if float_check:
@@ -369,14 +383,100 @@ def run_path(events, returns_node, local, float_check):
             return (k, f'the counter `_ref` of a handle is changed outside init / __dealloc__ / incref / decref: {ev[1]}')
         elif t in ('fieldTest', 'handleNode'):
             pass
+        elif t in ('fillBegin', 'fillEnd'):
+            q = cs.get(ev[1])
+            if q is None:
+                return (k, 'a loop stores into an untracked array')
+            q['filling'] = t == 'fillBegin'
+            if t == 'fillEnd':
+                q['filled'] = True
+        elif t == 'handleDrop':
+            n = st.get(ev[1])
+            if n is not None and ev[2] not in PERMANENT_HANDLE_CALLS \
+                    and not (n['held'] > 0 or n['in_cont'] > 0 or n['wraps'] > 0):
+                n['exposed'] = True
+        elif t == 'iterBegin':
+            loops.append({x: n['held'] for x, n in st.items()})
+        elif t == 'iterBreak':
+            if loops:
+                loops.pop()
+        elif t == 'iterEnd':
+            if not loops:
+                return (k, 'end of a loop iteration outside a loop')
+            snap = loops.pop()
+            for x, n in sorted(st.items()):
+                if n['held'] != snap.get(x, 0):
+                    return (k, 'a loop iteration ends holding (or having given away) a reference it did not '
+                               f'hold when it began (node {x})')
         else:
             return (k, f'event without a rule: {t}')
     return end(len(events))
 
 
-# (back end, function, exception that ends the path): same list as `knownArrayLeaks` in
-# lean/DD/CWrapReviewed.lean -- memory only, recorded as an observation
-KNOWN_ARRAY_LEAKS = {('cudd', 'BDD._multi_compose', 'ValueError')}
+def node_descr(events, x):
+    """How the node `x` came into the path: the parameter text, the C function, `load`."""
+    for e in events:
+        if e[0] == 'param' and e[1] == x:
+            return e[2]
+        if e[0] == 'produce' and e[1] == x:
+            return e[2]
+        if e[0] == 'load' and e[1] == x:
+            return 'load'
+    return '?'
+
+
+def exit_summary(events, returns_node, local):
+    """What the function still owns when the path ends: `[(description, count)]` -- per node (in the
+    order of their numbers) the references held, per container of the function the references parked
+    in it (`-1`: handed to a function of the module, which may have stored some), `array not freed`.
+    None when the path is refused before its end."""
+    fin = []
+    run_path(events, returns_node, local, False, fin)
+    if not fin:
+        return None
+    st, cs = fin[0]
+    out = []
+    for x, n in sorted(st.items()):
+        if n['held'] != 0:
+            out.append((node_descr(events, x), n['held']))
+    for c, q in sorted(cs.items()):
+        if q['kind'] != 'param' and (q['owned'] or q['may_hold']):
+            out.append(('container ' + q['kind'], 0))
+    for c, q in sorted(cs.items()):
+        if q['kind'] == 'array' and not q['freed']:
+            out.append(('array not freed', 0))
+    return out
+
+
+def _reviewed_text():
+    here = os.path.dirname(os.path.abspath(__file__))
+    with open(os.path.join(here, '..', 'lean', 'DD', 'CWrapReviewed.lean')) as f:
+        return f.read()
+
+
+def known_array_leaks():
+    """`knownArrayLeaks` of lean/DD/CWrapReviewed.lean (the reviewed list has ONE source): (back end,
+    function, exception that ends the path -- the name of an explicit `raise` or the site `callee#k`);
+    memory only, recorded as an observation."""
+    import re
+    text = _reviewed_text()
+    a = text.index('def knownArrayLeaks')
+    b = text.index(']', text.index(':= [', a))
+    return {(m.group(1), m.group(2), m.group(3))
+            for m in re.finditer(r'\(\.(\w+), "([^"]*)", "([^"]*)"\)', text[a:b])}
+
+
+def known_exception_leaks():
+    """`knownExceptionLeaks` of lean/DD/CWrapReviewed.lean:
+    {(back end, function, site, ((description, count), …)): reach}."""
+    import re
+    text = _reviewed_text()
+    a = text.index('def knownExceptionLeaks')
+    out = {}
+    for m in re.finditer(r'⟨\.(\w+), "([^"]*)", "([^"]*)", \[(.*?)\], \.(\w+)⟩', text[a:]):
+        held = tuple((d, int(k)) for d, k in re.findall(r'\("([^"]*)", (-?\d+)\)', m.group(4)))
+        out[(m.group(1), m.group(2), m.group(3), held)] = m.group(5)
+    return out
 
 CONT_EVENTS = ('alloc', 'cnew', 'cparam', 'store', 'load', 'passC', 'derefAll', 'free', 'refNonPos',
                'setField')
@@ -384,6 +484,15 @@ CONT_EVENTS = ('alloc', 'cnew', 'cparam', 'store', 'load', 'passC', 'derefAll', 
 
 def _count(events, kinds):
     return sum(1 for e in events if e[0] in kinds)
+
+
+def _raises(evs):
+    """The path ends by an explicit `raise` or by an exception raised inside a callee."""
+    return bool(evs) and evs[-1][0] in ('raise', 'raiseIn')
+
+
+def _exceptional(evs):
+    return bool(evs) and evs[-1][0] == 'raiseIn'
 
 
 def field_run(events, start_zero):
@@ -442,7 +551,7 @@ def field_path_problem(role, evs):
         return None
     if isinstance(f, tuple):
         return f[1]
-    raises = bool(evs) and evs[-1][0] == 'raise'
+    raises = _raises(evs)
     net = _count(evs, ('ref',)) - _count(evs, ('deref',))
     based = role in ('handleInit', 'handleDealloc') or any(e[0] == 'handleNode' for e in evs)
     if based:
@@ -475,6 +584,8 @@ def method_problem(m, local, has_field=False):
                     return (i, 0, f'{m["name"]}: {why}')
     if role == 'plain':
         for i, evs in enumerate(paths):
+            if _exceptional(evs):
+                continue        # exits through exceptions from callees: `exception_exit_problems`
             bad = run_path(evs, m['returns_node'], local, False)
             if bad is not None and bad[1] != ARRAY_LEAK:
                 return (i, bad[0], bad[1])
@@ -484,16 +595,22 @@ def method_problem(m, local, has_field=False):
             if e[0] in CONT_EVENTS:
                 return (i, k, f'{m["name"]} keeps references in a container')
     if role == 'wrapFn':
-        ok = (len(paths) == 1 and len(paths[0]) == 3 and paths[0][0][0] == 'param'
-              and paths[0][1] == ('initCall', paths[0][0][1]) and paths[0][2] == ('retHandle',))
-        return None if ok else (0, 0, '`wrap` does not hand its node to `init` exactly once')
+        normal = [evs for evs in paths if not _exceptional(evs)]
+        ok = (len(normal) == 1 and len(normal[0]) == 3 and normal[0][0][0] == 'param'
+              and normal[0][1] == ('initCall', normal[0][0][1]) and normal[0][2] == ('retHandle',))
+        if not ok:
+            return (0, 0, '`wrap` does not hand its node to `init` exactly once')
+        for i, evs in enumerate(paths):
+            if _exceptional(evs) and any(e[0] not in ('param', 'raiseIn') for e in evs):
+                return (i, 0, '`wrap` does something before `Function()` / `init` raises')
+        return None
     if role == 'handleInit':
         some = False
         for i, evs in enumerate(paths):
             if not evs or evs[0][0] != 'param':
                 return (i, 0, 'init does not start from its node parameter')
             x = evs[0][1]
-            raises = evs[-1][0] == 'raise'
+            raises = _raises(evs)
             nref = _count(evs, ('ref',))
             if _count(evs, ('deref',)) != 0:
                 return (i, 0, 'init gives a reference back')
@@ -507,7 +624,7 @@ def method_problem(m, local, has_field=False):
     if role == 'handleDealloc':
         some = False
         for i, evs in enumerate(paths):
-            raises = evs[-1][0] == 'raise'
+            raises = _raises(evs)
             nd = _count(evs, ('deref',))
             if _count(evs, ('ref',)) != 0:
                 return (i, 0, '__dealloc__ takes a reference')
@@ -525,7 +642,7 @@ def method_problem(m, local, has_field=False):
         return None if some else (0, 0, '__dealloc__ never dereferences')
     if role in ('refInc', 'refDec'):
         for i, evs in enumerate(paths):
-            raises = evs[-1][0] == 'raise'
+            raises = _raises(evs)
             nr, nd = _count(evs, ('ref',)), _count(evs, ('deref',))
             want = (0, 0) if raises else ((1, 0) if role == 'refInc' else (0, 1))
             if (nr, nd) != want:
@@ -703,6 +820,11 @@ def check_C19(ctx):
     npaths = 0
     array_leaks = []        # observation, not a C19 violation: no node reference is involved
     dead_asserts = []       # `cuddRef(x); if x.ref <= 0: raise AssertionError`: cannot fire; would leak if it did
+    exc_leaks = []          # exits through exceptions from callees that still own references (reviewed list)
+    n_exceptional = 0
+    KNOWN_ARRAY_LEAKS = known_array_leaks()
+    KNOWN_EXC = known_exception_leaks()
+    seen_exc = set()
     for tag, ms in data['traces'].items():
         local = set(data['local'][tag])
         for m in ms:
@@ -713,10 +835,38 @@ def check_C19(ctx):
                 if m['role'] != 'plain':
                     continue
                 bad = run_path(evs, m['returns_node'], local, False)
+                if _exceptional(evs):
+                    n_exceptional += 1
+                    if bad is not None and bad[1] != ARRAY_LEAK:
+                        # an exception raised inside a callee leaves the function while it owns references
+                        site, line = evs[-1][1], evs[-1][2]
+                        held = exit_summary(evs, m['returns_node'], local)
+                        key = (tag, m['name'], site, tuple(held) if held is not None else None)
+                        reach = KNOWN_EXC.get(key)
+                        if key not in seen_exc:
+                            seen_exc.add(key)
+                            if reach is not None:
+                                exc_leaks.append(dict(backend=tag, method=m['name'], def_line=m['line'],
+                                                      site=site, line=line, still_owned=held, reach=reach))
+                            if reach is None or reach == 'userError':
+                                what = (f'{tag} {m["name"]} (line {m["line"]}): an exception raised at `{site}` '
+                                        f'(line {line}) leaves the function while it still owns '
+                                        + (', '.join(f'{k} reference(s) on the result of `{d}`' if k else d
+                                                     for d, k in held) if held is not None else bad[1]))
+                                ctx.violation(
+                                    what,
+                                    dict(backend=tag, method=m['name'], line=line, site=site,
+                                         still_owned=held, reason=bad[1],
+                                         path=[list(e) for e in evs], event=bad[0],
+                                         names={str(a): b for a, b in _n.items()},
+                                         tags=dict(call=f'{tag}.{m["name"]}',
+                                                   symptom='exception-path-leak' if reach else 'new-exception-path-leak',
+                                                   site=site)))
+                        continue
                 if bad is not None and bad[1] == ARRAY_LEAK:
                     array_leaks.append(dict(backend=tag, method=m['name'], line=m['line'], path=i,
                                             ends=list(evs[-1])))
-                    exc = evs[-1][1] if evs and evs[-1][0] == 'raise' else None
+                    exc = evs[-1][1] if evs and evs[-1][0] in ('raise', 'raiseIn') else None
                     if (tag, m['name'], exc) not in KNOWN_ARRAY_LEAKS:
                         ctx.violation(
                             f'{tag} {m["name"]} (line {m["line"]}): {ARRAY_LEAK}',
@@ -740,6 +890,8 @@ def check_C19(ctx):
                          tags=dict(call=f'{tag}.{m["name"]}', symptom='reference-balance')))
             if m['role'] == 'plain':
                 for i, (evs, names) in enumerate(m['paths']):
+                    if _exceptional(evs):
+                        continue
                     bad = run_path(evs, m['returns_node'], local, True)
                     if bad is not None and bad[1] == ARRAY_LEAK:
                         bad = None
@@ -786,6 +938,8 @@ def check_C19(ctx):
         apply=summary,
         operator_methods={tag: [q for q, _s, _o in rows] for tag, rows in data['operators'].items()},
         observations=dict(
+            exits_through_exceptions_that_still_own_references=exc_leaks,
+            exceptional_exits_followed=n_exceptional,
             arrays_not_freed=array_leaks,
             assertions_that_cannot_fire_but_would_leak=dead_asserts),
         traces=dict(covered_methods=len(covered), paths=npaths, fingerprint=fp,
